@@ -28,6 +28,9 @@ THEOREMS = [
     "HgVerif.SvcCtx.fresh_reference_reproduces",
     "HgVerif.SvcCtx.svc_step_trace_history_free",
     "HgVerif.SvcCtx.svc_history_prefix_irrelevant",
+    "HgVerif.SvcCtx.direct_publishes_same_cycle",
+    "HgVerif.SvcCtx.deferred_publishes_next_cycle",
+    "HgVerif.SvcCtx.deferred_never_same_cycle",
     "HgVerif.SvcCtx.modeless_key_leaks_mode",
     "HgVerif.SvcCtx.modeless_first_step_unaffected",
     "HgVerif.SvcCtx.modeless_other_path_unaffected",
@@ -241,7 +244,7 @@ def monitor(stream, case, out):
         if b is None:
             continue
         want = reference_output(ref)
-        if want is not None and want != "bad-op" and o != want:
+        if want is not None and want != "bad-op" and not want.startswith("<") and o != want:
             bad.append("[repro] a service client graph behaves differently after the builds made before it in this process than "
                        "ALONE in a fresh process: step %d '%s'%s after %d build(s) gives %s ; alone it gives %s"
                        % (k, l, "" if kind == "build" else " (= '%s')" % ref, nb, o[:170], want[:170]))
